@@ -2,7 +2,7 @@
    the class functions And / Or / Sans / Xor produce a NEW object from the operands' contents
    (also when both operands are the same object), leave every existing object unchanged, and
    later changes to one side do not reach the other (instances of PoolFrame). *)
-From Verif Require Import Base Sorter Value Seq Coll Pool PoolFrame.
+From Verif Require Import Base Sorter Value Seq Coll CollP CollPProofs Pool PoolFrame.
 Local Open Scope nat_scope.
 
 Definition new_set (p : pool) (c : nat) (o : out (list val)) : pool * ret :=
@@ -65,6 +65,58 @@ Proof.
   - intros o' Ho'. destruct (Hops o' Ho') as [W|W]; rewrite W; [|discriminate].
     intros E. inversion E. lia.
 Qed.
+
+
+(* ---------- round 3: Sets whose collator may panic (a small maximum traversal depth), nil operands ---------- *)
+
+(* the class functions over operands whose collators may panic are the verified class functions of Coll.v whenever
+   the two rankings never panic *)
+Theorem limited_collator_agrees : forall (zero : val) (rank1 rank2 : val -> val -> comparison)
+  (rk1 rk2 : val -> val -> option comparison),
+  (forall a b, rk1 a b = Some (rank1 a b)) -> (forall a b, rk2 a b = Some (rank2 a b)) ->
+  forall a b,
+    set_and_p zero rk1 rk2 a b = set_and zero rank1 rank2 a b /\
+    set_or_p zero rk1 a b = set_or zero rank1 a b /\
+    set_sans_p zero rk1 a b = set_sans zero rank1 a b /\
+    set_xor_p zero rk1 rk2 a b = set_xor zero rank1 rank2 a b.
+Proof.
+  intros zero rank1 rank2 rk1 rk2 T1 T2 a b. repeat split.
+  - apply (set_and_p_agrees val zero rank1 rank2 rk1 rk2 T1 T2).
+  - apply (set_or_p_agrees val zero rank1 rk1 T1).
+  - apply (set_sans_p_agrees val zero rank1 rk1 T1).
+  - apply (set_xor_p_agrees val zero rank1 rank2 rk1 rk2 T1 T2).
+Qed.
+
+(* what the pool machine computes for the class functions when an operand is a depth-limited Set *)
+Definition new_like (p : pool) (o : obj) (r : out (list val)) : pool * ret :=
+  match r with Ret l => (p ++ [set_like o l], RNew) | Panic => (p, RPanic) | Hang => (p, RHang) end.
+
+Theorem pool_set_algebra_limited : forall zero p a b m x r2 y,
+  get p a = OSetL m x -> set_operand (get p b) = Some (r2, y) ->
+  step zero p (SAnd a b) = new_like p (OSetL m x) (set_and_p zero (rk_lim m) r2 x y) /\
+  step zero p (SOr a b) = new_like p (OSetL m x) (set_or_p zero (rk_lim m) x y) /\
+  step zero p (SSans a b) = new_like p (OSetL m x) (set_sans_p zero (rk_lim m) x y) /\
+  step zero p (SXor a b) = new_like p (OSetL m x) (set_xor_p zero (rk_lim m) r2 x y).
+Proof.
+  intros zero p a b m x r2 y Ga Gb. cbn [step]. rewrite Ga. cbn [set_operand]. rewrite Gb.
+  unfold of_out, new_like, push_obj. repeat split;
+    match goal with |- match ?o with _ => _ end = match ?o with _ => _ end => destruct o; reflexivity end.
+Qed.
+
+Definition is_class_call (o : op) : bool :=
+  match o with SAnd _ _ | SOr _ _ | SSans _ _ | SXor _ _ | Concat _ _ | Merge _ _ | Extract _ _ | NilCall _ _ _ => true | _ => false end.
+
+(* a class function that panics (midway, or at once on a nil operand) leaves the pool exactly as it was: nothing of
+   what it gathered before the panic exists afterwards, so the next call starts from the operands alone *)
+Theorem failed_class_call_changes_nothing : forall zero p o p',
+  is_class_call o = true -> step zero p o = (p', RPanic) -> p' = p.
+Proof. intros zero p o p' _ H. apply (step_panic_frame zero p o p' RPanic H). left. reflexivity. Qed.
+
+(* data for the Example: the empty slice and two slices nested two levels deep; a Set with maximum depth 1 *)
+Definition lv_e : val := VSeq KSlice [].
+Definition lv_d1 : val := VSeq KSlice [VSeq KSlice [VInt 0 1]].
+Definition lv_d2 : val := VSeq KSlice [VSeq KSlice [VInt 0 2]].
+Definition ex_lim_pool : pool := [OSet 0 [lv_e; lv_d2]; OSetL 1 [lv_e; lv_d1]].
 
 (* data for the Examples: two Sets of Go ints built from slices, all four operations, the same
    Set passed twice, then the first operand and a result are mutated *)
